@@ -42,6 +42,16 @@ from vlib.core import CheckerError, Ctx
 ###############################################################################
 
 
+def _slow_first(v):
+    """parallelise() contract task: earlier inputs finish later (completion order is
+    the reverse of submission order whenever more than one worker is free)."""
+    import time
+
+    i, n = v
+    time.sleep(0.02 * (n - i))
+    return (i, i * i)
+
+
 def _const(k0):
     return k0
 
@@ -439,6 +449,7 @@ def run(ctx: Ctx) -> None:
     logging.disable(logging.WARNING)
     quick = ctx.tier == "quick"
     tally = _Tally()
+    par_cases = 0
     cfg = {
         "tp": np.linspace(0, 1.0, 4),  # 1/3 and 2/3 are not protocol switch points
         "proto": make_protocol([(0.5, {"k0": 2.0}), (0.5, {"k0": 0.5})]),
@@ -576,6 +587,62 @@ def run(ctx: Ctx) -> None:
                     ctx.fail(key="bounded:failing-row-raises-instead-of-placeholder:ZeroDivisionError-at-initial-state:mc.scan_steady_state"
                              if zd else f"bounded:scan-raised:{type(e).__name__}:{tag}", kind="bounded",
                              what=f"mc.scan_steady_state raised {type(e).__name__}: {str(e)[:100]}", witness=witness, replayed=True)
+        # ---- parallelise(): results are paired with the inputs BY POSITION ---------------
+        # scan.steady_state / mc.steady_state zip the result list with the scan table, so
+        # the contract of the real parallelise is positional and must not depend on the
+        # keys being distinct, sortable or hashed in any particular way.
+        key_sets = {
+            "distinct": [3, 0, 2, 1, 5, 4],
+            "repeated": [0, 1, 2, 0, 1, 2],
+            "all-equal": ["r", "r", "r", "r"],
+            "tuple-keys": [(0, "a"), (1, "a"), (0, "a"), (0, "b")],
+        }
+        for kname, keys_ in key_sets.items():
+            n = len(keys_)
+            inputs = [(k, (i, n)) for i, k in enumerate(keys_)]
+            want = [(k, (i, i * i)) for i, k in enumerate(keys_)]
+            for sched in ("seq", 1, 2, 16):
+                kw = {"parallel": False} if sched == "seq" else {"parallel": True, "max_workers": sched}
+                par_cases += 1
+                tally.nontrivial.add(("parallelise", kname, sched))
+                if sched != "seq":
+                    tally.pools += 1
+                witness = {"call": "parallel.parallelise(_slow_first, inputs, **kw)", "keys": [repr(k) for k in keys_],
+                           "kw": kw, "task": "returns (i, i*i) for input (i, n) after sleeping 0.02*(n-i) s"}
+                try:
+                    got = mp.parallelise(_slow_first, inputs, disable_tqdm=True, **kw)
+                except Exception as e:  # noqa: BLE001
+                    ctx.fail(key=f"bounded:parallelise-raised:{type(e).__name__}:{kname}:{_relation(n, sched)}", kind="bounded",
+                             what=f"parallelise raised {type(e).__name__}: {str(e)[:100]}", witness=witness, replayed=True)
+                    continue
+                if list(got) != want:
+                    ctx.fail(key=f"bounded:parallelise-not-positional:{kname}:{_relation(n, sched)}", kind="bounded",
+                             what=f"parallelise: result list is not [(key_i, fn(input_i))] in input order: got {list(got)!r}, want {want!r}",
+                             witness={**witness, "got": repr(list(got)), "want": repr(want)}, replayed=True)
+
+        # ---- steady-state scans over a table whose row labels repeat ----------------------
+        # (steady-state containers pair results with rows by position, so repeated labels -
+        # two grids joined with pd.concat - are inside their contract; the label-keyed
+        # time-course / protocol containers assume distinct labels, see assumptions)
+        dup = pd.concat([pd.DataFrame({"k1": [0.5, 2.0, 3.0]}), pd.DataFrame({"k1": [1.0, 1.5, 2.5]})])
+        dup_refs = [_independent("ss", _m_plain, [row.to_dict()], cfg) for _, row in dup.iterrows()]
+        for ename in ("scan.steady_state", "mc.steady_state"):
+            kind, call, has_seq = entries[ename]
+            for sched in (["seq"] if has_seq else []) + ([2] if quick else [1, 2, 16]):
+                tag = f"{ename}:plain:parameter:repeated-row-labels:{_relation(len(dup), sched)}"
+                witness = {"entry": ename, "model": "plain", "to_scan": {"index": [repr(x) for x in dup.index], **dup.to_dict("list")},
+                           "schedule": "parallel=False" if sched == "seq" else f"parallel=True,max_workers={sched}"}
+                workers_for_scan["n"] = None if sched == "seq" else sched
+                tally.cases += 1
+                tally.rows += len(dup)
+                tally.nontrivial.add((ename, "repeated-row-labels", sched))
+                try:
+                    res = call(_m_plain(), dup.copy(), cfg, sched)
+                    _post(ctx, tally, ename=ename, kind=kind, res=res, table=dup, refs=dup_refs, tag=tag, witness=witness)
+                except Exception as e:  # noqa: BLE001
+                    ctx.fail(key=f"bounded:scan-raised:{type(e).__name__}:{tag}", kind="bounded",
+                             what=f"{ename} over repeated row labels raised {type(e).__name__}: {str(e)[:100]}",
+                             witness=witness, replayed=True)
     finally:
         mp.tqdm, scan.parallelise, mc.parallelise = real_tqdm, real_par_scan, real_par_mc
         logging.disable(logging.NOTSET)
@@ -594,10 +661,19 @@ def run(ctx: Ctx) -> None:
     ctx.assume(
         f"scan and independent run execute the same deterministic integrator on identical inputs; compared with rtol={RTOL}, atol={ATOL} "
         "(the integrator's own tolerance; the defects this check exists for are O(1) differences)",
-        "row labels of to_scan are distinct (dict(res) precondition)",
+        "row labels of to_scan are distinct for the label-keyed containers (time course / protocol: dict(res) precondition); "
+        "steady-state scans and parallelise itself are also run with repeated labels / keys",
         "rows that 'fail' are rows whose independent run returns a failed Result or raises ZeroDivisionError; "
         "rows on which scipy itself raises (non-finite state handed to the next protocol step) are outside the bound",
         "for a failing row the fluxes are only required to have the right shape/position (a constant-rate flux is not NaN)",
+    )
+    ctx.add_bounded(
+        name="C09-parallelise-positional",
+        tool="run-time postcondition on the real parallel.parallelise: result == [(key_i, fn(input_i))] in input order",
+        bound="4 key lists (distinct, repeated, all equal, tuple keys; 4..6 tasks whose completion order is the reverse of "
+              "submission order) x {parallel=False, max_workers 1, 2, 16}",
+        cases=par_cases, distinct_nontrivial=par_cases,
+        rule="case = (key list, schedule)", exhaustive=False,
     )
     ctx.add_bounded(
         name="C09-scan-vs-independent-runs",
